@@ -6,7 +6,10 @@
 mod common;
 mod gen;
 mod sup;
+mod c01;
+mod c03;
 mod c04;
+mod projgen;
 mod c06;
 mod corpus;
 mod c07;
@@ -44,6 +47,8 @@ fn main() {
                 c13::worker(sp, idx)
             } else if sp.starts_with("c14") {
                 c14::worker(sp, idx)
+            } else if sp.starts_with("c01") {
+                c01::worker(sp, idx)
             } else if sp.starts_with("c19") {
                 c19::worker(sp, idx)
             } else {
@@ -57,6 +62,8 @@ fn main() {
         _ => Tier::Quick,
     };
     let checks: Vec<(&str, fn(&Ctx) -> i32)> = vec![
+        ("C01", c01::run),
+        ("C03", c03::run),
         ("C04", c04::run),
         ("C06", c06::run),
         ("C07", c07::run),
